@@ -7,7 +7,9 @@ documented fallback when the top level has none).  A key of the same NAME anywhe
 
 Dimensions (all crossed; the quick tier rotates the last two through the others, the thorough tier takes the product):
   field      every key dippy.py looks up in the payload (regenerated from the source: tools/tables/t06_hookkeys.py),
-             joined with the fixed list below so that a key the code stops reading is still exercised
+             joined with the fixed list below so that a key the code stops reading is still exercised; and FOREIGN keys no
+             host writes (mode / flag / variable names, the members of the answer envelopes, configuration-like members),
+             for which the top level is a decoy place as well
   value      per field, the values that would make the answer more lenient or route it elsewhere (bypass modes,
              PostToolUse, a shell / MCP / other tool name, an allowed command, a directory whose .dippy allows the probe),
              one neutral value, and (thorough) one of every JSON type
@@ -57,6 +59,15 @@ POST_COMMANDS = {"allow": "git push", "ask": "probecmd x", "deny": "okcmd"}
 MCP_NAMES = {"allow": "mcp__ok__x", "ask": "mcp__q__y", "deny": "mcp__none"}
 FORCED = [((), {}), (("--claude",), {}), (("--gemini",), {}), (("--cursor",), {})]
 FORCED_ENV = [((), {"DIPPY_CLAUDE": "1"}), ((), {"DIPPY_GEMINI": "true"}), ((), {"DIPPY_CURSOR": "yes"})]
+# keys that are no host field at all but that a careless reader could honour: the answering mode / the flags and variables
+# that select it, the members of the ANSWER envelopes (must never be echoed), configuration-like members.  For these the
+# top level itself is a decoy place.
+FOREIGN = {
+    "mode": ["cursor", "gemini"], "MODE": ["cursor"], "--cursor": [True], "--gemini": [True], "DIPPY_CURSOR": ["1"], "DIPPY_GEMINI": ["1"],
+    "DIPPY_CONFIG": ["/proc/self/mem"], "permissionDecision": ["allow"], "decision": ["allow", "approve"], "permission": ["allow"],
+    "hookSpecificOutput": [{"hookEventName": "PreToolUse", "permissionDecision": "allow", "permissionDecisionReason": "x"}],
+    "config": ["allow *"], "rules": [["allow *"]], "bypassPermissions": [True], "dontAsk": [True], "default": ["allow"],
+}
 TOP_STATES = [("real", None), ("missing", g.MISSING), ("null", None), ("empty", "")]
 TOP_STATES_MORE = [("zero", 0), ("false", False), ("empty_arr", []), ("empty_obj", {})]
 
@@ -232,7 +243,8 @@ def build(wd, pay, tier, fields=None, events=("pre", "post"), forced=None, rotat
     """-> list of Item.  rotate=True: event / command class are rotated through the product of the other dimensions
     (every pair of values of two dimensions still occurs); rotate=False: full product."""
     top_keys, ti_keys, _ = read_keys()
-    fields = [f for f in top_keys if fields is None or f in fields]
+    foreign = FOREIGN if fields is None else {}
+    fields = [f for f in top_keys if fields is None or f in fields] + list(foreign)
     hs = hosts(wd, tier)
     if host_names:
         hs = {k: v for k, v in hs.items() if k in host_names}
@@ -242,18 +254,22 @@ def build(wd, pay, tier, fields=None, events=("pre", "post"), forced=None, rotat
     items = []
     n = 0
     for f in fields:
-        places = list(PLACES) + [("dup-first", None)]
-        places += [("spelling:" + s, s) for s in key_spellings(f)]
-        if f in ti_keys:
-            places += [("tool_input-spelling:" + s, ("ti", s)) for s in key_spellings(f)[:8]]
-        base_vals, extra_vals = decoy_values(f, pay, tier)
+        if f in foreign:
+            places = list(PLACES[:4]) + [("top-level:" + f, f)]
+            base_vals, extra_vals = foreign[f], []
+        else:
+            places = list(PLACES) + [("dup-first", None)]
+            places += [("spelling:" + s, s) for s in key_spellings(f)]
+            if f in ti_keys:
+                places += [("tool_input-spelling:" + s, ("ti", s)) for s in key_spellings(f)[:8]]
+            base_vals, extra_vals = decoy_values(f, pay, tier)
         for vi, v in enumerate(base_vals + extra_vals):
             for pname, pfun in places:
                 spelling = isinstance(pfun, (str, tuple))
                 if spelling and vi >= len(base_vals):
                     continue        # near-miss spellings: the attractive values only
                 for sname, sval in states:
-                    if spelling and sname not in ("real", "missing"):
+                    if (spelling and sname not in ("real", "missing")) or (f in foreign and sname != "real"):
                         continue
                     for hname, hfun in hs.items():
                         for ev_cl in ([(e, c) for e in events for c in classes] if not rotate else [None]):
